@@ -30,8 +30,9 @@ Definition HasType (e : json) (t : string) : Prop := In t (types e).
 Definition Entity (g : graph) (i : string) (e : json) : Prop := In e g /\ ent_id e = Some i.
 Definition External (r : string) : Prop := external r = true.
 
-(* every archive entry called i carries what entity e records about itself *)
+(* entity e records a checksum, and every archive entry called i carries what e records about itself *)
 Definition RecordedOk (ar : list entry) (e : json) (i : string) : Prop :=
+  (exists h, get e "sha1" = Some (JStr h)) /\
   (exists d s, In (i, d, s) ar) /\
   forall d s, In (i, d, s) ar ->
     (forall x, get e "sha1" = Some x -> x = JStr d) /\
@@ -43,16 +44,22 @@ Definition FileOk (g : graph) (ar : list entry) (y h : string) (s : N) : Prop :=
   (exists d s', In (y, d, s') ar) /\
   forall d s', In (y, d, s') ar -> d = h /\ s' = s.
 
-Definition ItemOk (g : graph) (ar : list entry) (j : json) (it : item) : Prop :=
-  match it with
-  | IFile h s => exists y, ref_of j = Some y /\ FileOk g ar y h s
-  | ILit alts => exists t, lit_text j = Some t /\ In t alts
-  end.
-
 (* y is reachable from x through at most n hasPart links *)
 Inductive ReachN (g : graph) : nat -> string -> string -> Prop :=
 | R_refl : forall n x, ReachN g n x x
 | R_step : forall n x z y e, Entity g x e -> PRef e "hasPart" z -> ReachN g n z y -> ReachN g (S n) x y.
+
+(* below x (through at most dir_depth hasPart links) there is a good File entity for every listed file *)
+Definition DirFilesOk (g : graph) (ar : list entry) (x : string) (files : list (string * N)) : Prop :=
+  forall h s, In (h, s) files -> exists y, ReachN g dir_depth x y /\ FileOk g ar y h s.
+
+Definition ItemOk (g : graph) (ar : list entry) (j : json) (it : item) : Prop :=
+  match it with
+  | IFile h s => exists y, ref_of j = Some y /\ FileOk g ar y h s
+  | ILit alts => exists t, lit_text j = Some t /\ In t alts
+  | IDir files => exists y, ref_of j = Some y /\ (exists e, Entity g y e /\ HasType e "Dataset") /\
+                            DirFilesOk g ar y files
+  end.
 
 (* entity e, whose id is x, carries the value v *)
 Definition ValOk (g : graph) (ar : list entry) (e : json) (x : string) (v : value) : Prop :=
@@ -62,9 +69,8 @@ Definition ValOk (g : graph) (ar : list entry) (e : json) (x : string) (v : valu
       HasType e "PropertyValue" /\ exists j, get e "value" = Some j /\ ItemOk g ar j (ILit alts)
   | VList its =>
       HasType e "PropertyValue" /\ exists j, get e "value" = Some j /\ Forall2 (ItemOk g ar) (as_list j) its
-  | VDir files =>
-      HasType e "Dataset" /\
-      forall h s, In (h, s) files -> exists y, ReachN g dir_depth x y /\ FileOk g ar y h s
+  | VItem (IDir files) => HasType e "Dataset" /\ DirFilesOk g ar x files
+  | VDir files => HasType e "Dataset" /\ DirFilesOk g ar x files
   end.
 
 (* p is a formal parameter called [name], listed as input (resp. output) of the main entity *)
@@ -133,3 +139,8 @@ Record wf_crate (g : graph) (ar : list entry) (vs : list rv) (ss : list sv) : Pr
   (* consistent: the actions of a step list what its jobs consumed and produced *)
   wf_steps : forall v, In v ss -> StepOk g ar v
 }.
+
+(* the metadata document is a JSON-LD document: an object with an @context whose @graph is an array of node
+   objects forming a well-formed crate *)
+Definition wf_doc (m : json) (ar : list entry) (vs : list rv) (ss : list sv) : Prop :=
+  exists ctx g, get m "@context" = Some ctx /\ get m "@graph" = Some (JArr g) /\ wf_crate g ar vs ss.
